@@ -634,6 +634,13 @@ class Unit:
             reg.rewrites_applied[r] = cnt
             # the template may show either the original or the rewritten form
             ttoks, _ = rewrites.apply(r, ttoks, ctx)
+        # constructs Verus ACCEPTS but gives no meaning to: a proof over them can only fail for want of a specification, which
+        # would be reported as a violation of the contract.  They must have been rewritten to a specified shim by now.
+        for k in range(len(code1) - 1):
+            if code1[k].kind == "id" and code1[k].text in ("format", "write", "writeln", "print", "println", "eprintln", "eprint") \
+                    and code1[k + 1].text == "!" and code1[k + 1].kind == "punct" and (k == 0 or code1[k - 1].text not in (".", "::")):
+                raise ExtractError("unsupported construct in %s: `%s!` without a rewrite rule (Verus accepts it without a specification)"
+                                   % (" ".join(reg.path), code1[k].text))
         # attributes in the template before the item keyword are annotations (the source's own
         # attributes are outside the extracted range: derives are re-stated by the template)
         lead = []
